@@ -90,6 +90,18 @@ func symbolCommands(sym string, i int) [][]string {
 		return [][]string{{"multi"}, {"SET", "k1", "u" + p + "a"}, {"LPUSH", "l1", "u" + p + "b"}, {"SET", "k2", "u" + p + "c"}, {"exec"}}
 	case "ts":
 		return [][]string{{"MULTI"}, {"SELECT", "1"}, {"SET", "k1", "s" + p}, {"EXEC"}}
+	case "wn":
+		// a command a healthy target answers with a nil reply (the list does not exist)
+		return [][]string{{"RPOPLPUSH", "l9", "l8:" + p}}
+	case "tn":
+		// a nil reply nested in an EXEC array
+		return [][]string{{"MULTI"}, {"RPOPLPUSH", "l9", "l8:" + p}, {"SET", "k1", "q" + p}, {"EXEC"}}
+	case "tf":
+		// a source transaction all of whose members are removed by the key filter
+		return [][]string{{"MULTI"}, {"SET", fltPrefix + "k", "v" + p}, {"EXEC"}}
+	case "tp":
+		// a source transaction of which the key filter removes one member
+		return [][]string{{"MULTI"}, {"SET", fltPrefix + "k", "v" + p}, {"SET", "k1", "r" + p}, {"EXEC"}}
 	case "p":
 		return [][]string{{"PING"}}
 	case "g":
